@@ -2,8 +2,9 @@
 
 Tie H (Model/Jobmap.v): sequences of REAL `molli.pipeline.jobmap` runs (each work item is a real `_molli_run`
 subprocess started by jobmap itself) over 3..6-item MoleculeLibrary / ConformerLibrary files with scripted per-item
-outcome streams (succeed / fail / fail after writing the return file / omit the return file, per attempt), changes of
-the job argument and of strict_hash between runs, pre-populated destinations, destination-only keys, damaged cache
+outcome streams (succeed / fail / fail after writing the return file / omit the return file, per attempt; jobs of 1..3
+commands, named or unnamed, with the failure at each position and the return file written before / by / after the
+failing command), changes of the job argument and of strict_hash between runs, pre-populated destinations, destination-only keys, damaged cache
 files, single and vectorised jobs.  After every event the destination, the cache directory and the execution counters
 (files appended to by the scripted commands) are observed and replayed in the model inside Coq (check_jcase); an oracle
 written from the property text judges every run on the observations alone.
@@ -17,11 +18,15 @@ HEADER = ("From Coq Require Import List ZArith NArith String.\nImport ListNotati
           "From Molli Require Import Model.Job Model.Jobmap.\nLocal Open Scope string_scope.\n")
 
 ITEM_SH = r'''#!/bin/sh
-# $1 = item name, $2 = job argument.  The outcome of the n-th execution comes from the plan file, not from the command text.
+# $1 = item name, $2 = job argument, $3 = index of this command in the job's command list, $4 = number of commands.
+# What the n-th execution of the item does comes from line n+1 of the plan file (one '/'-separated step per command:
+# s = succeed, w = write the return file and succeed, f<k> = exit k, g<k> = write the return file then exit k),
+# not from the command text.  An execution is counted by its first command.
 D="@DIR@"
+i="${3:-0}"; m="${4:-1}"
 if [ -f "$D/count/$1" ]; then n=$(wc -l < "$D/count/$1"); else n=0; fi
 n=$((n+0))
-echo x >> "$D/count/$1"
+if [ "$i" -eq 0 ]; then echo x >> "$D/count/$1"; else n=$((n-1)); fi
 a="$2"
 case "$a" in
   @file) a=$(cat arg.txt);;
@@ -29,13 +34,59 @@ case "$a" in
 esac
 echo "run:$1:$a:$n"
 o=$(sed -n "$((n+1))p" "$D/plan/$1" 2>/dev/null)
-case "$o" in
-  F*) exit ${o#F};;
-  G*) echo "ok:$1:$a:$n" > o.txt; exit ${o#G};;
-  O) exit 0;;
-  *) echo "ok:$1:$a:$n" > o.txt;;
+if [ -n "$o" ]; then s=$(echo "$o" | cut -d/ -f$((i+1))); elif [ $((i+1)) -eq "$m" ]; then s=w; else s=s; fi
+case "$s" in
+  f*) exit ${s#f};;
+  g*) echo "ok:$1:$a:$n" > o.txt; exit ${s#g};;
+  w) echo "ok:$1:$a:$n" > o.txt;;
+  *) ;;
 esac
 '''
+
+
+# ------------------------------------------------------------------ the commands of one execution
+def steps_of(tok, shape):
+    """One step per command of the job (shape: one letter per command, n = named, u = unnamed).  A plan entry is
+    either a '/'-separated step list, or one of the whole-execution outcomes S / F<k> / G<k> / O, which is the last
+    command's doing (the commands before it succeed and write nothing)."""
+    m = len(shape)
+    if "/" in tok or tok[0].islower():
+        st = tok.split("/")
+        assert len(st) == m, (tok, shape)
+        return st
+    last = {"S": "w", "O": "s"}.get(tok) or ("f" if tok[0] == "F" else "g") + tok[1:]
+    return ["s"] * (m - 1) + [last]
+
+
+def outcome_of(steps):
+    """(exit code to be recorded, return file present, index of the failing command or None) by the property text's
+    reading of an execution: commands run in order, the first failing one ends it."""
+    have = False
+    for i, st in enumerate(steps):
+        if st[0] in "wg":
+            have = True
+        if st[0] in "fg":
+            return int(st[1:]), have, i
+    return (0 if have else 1), have, None
+
+
+def kind_of(steps, shape):
+    code, have, i = outcome_of(steps)
+    if i is None:
+        return "success" if have else "omitted-return-file"
+    w = [j for j, st in enumerate(steps) if st[0] in "wg"]
+    where = "no-file" if not w else ("file-before" if w[0] < i else "file-by" if w[0] == i else "file-after")
+    return f"failed-command:{'unnamed' if shape[i] == 'u' else 'named'}-{'last' if i == len(shape) - 1 else 'nonlast'}:{where}"
+
+
+def rand_steps(rng, m):
+    p = rng.choice([None] + list(range(m)) * 2)          # failing command
+    q = rng.choice([None] + list(range(m)) * 3)          # command that writes the return file
+    k = rng.randint(1, 9)
+    return "/".join((("g" if q == i else "f") + str(k)) if p == i else ("w" if q == i else "s") for i in range(m))
+
+
+SHAPES = ["n"] * 9 + ["u", "nn", "un", "un", "nu", "uu", "unn", "nun", "uun", "nnu"]
 
 
 # ------------------------------------------------------------------ sequences
@@ -52,9 +103,12 @@ def gen_sequence(rng, k):
     keys = [f"k{i}" for i in rng.sample(range(8), nkeys)]
     src = [(key, rng.randint(1, 3) if vec else 1) for key in keys]
     plans = {}
+    shape = rng.choice(SHAPES)
     for key, L in src:
         for nm in names_of(key, L, vec):
             plans[nm] = list(rng.choice(PLAN_MENU))
+            if len(shape) > 1 and rng.random() < 0.6:
+                plans[nm] = [rand_steps(rng, len(shape)) for _ in range(rng.randint(1, 3))]
     init = {}
     for key, L in src:
         if rng.random() < 0.2:
@@ -76,7 +130,7 @@ def gen_sequence(rng, k):
             events.append(["newdst"])
         events.append(["run", arg, rng.random() < 0.85, vec])
     return {"vec": vec, "src": src, "plans": plans, "init": init, "events": events, "note": f"random{k}",
-            "carrier": ("cmd", "file", "env")[k % 3]}
+            "carrier": ("cmd", "file", "env")[k % 3], "shape": shape}
 
 
 def directed_sequences():
@@ -118,6 +172,35 @@ def directed_sequences():
     S.append({"vec": True, "src": [("a", 2), ("b", 1)], "plans": {}, "init": {}, "carrier": "file",
               "events": [["run", "A", True, True], ["newdst"], ["run", "B", True, True], ["newdst"], ["run", "A", True, True]],
               "note": "vectorised argument change [file]"})
+    # jobs of SEVERAL commands, named (recorded) or not: the failing command at every position x the return file written
+    # before / by / after it / never; an item counts as succeeded only if every command did.  Second attempts fail at
+    # another position for some items; third run: nothing left to do or still failing.
+    def combos(m, which=None):
+        out = []
+        for p in [None] + list(range(m)):
+            for q in [None] + list(range(m)):
+                out.append("/".join((("g" if q == i else "f") + str(2 + i)) if p == i else ("w" if q == i else "s") for i in range(m)))
+        return out if which is None else [out[i] for i in which]
+    for shape, which in (("un", None), ("nu", None), ("uu", (1, 3, 5, 6, 8)), ("nun", (1, 4, 6, 9, 10, 11, 14))):
+        cs = combos(len(shape), which)
+        plans = {f"i{j}": [c] for j, c in enumerate(cs)}
+        j1 = "i3" if which is None else "i1"
+        plans[j1] = plans[j1] + [cs[-1]]                  # fails again on the second attempt, at another position
+        if len(cs) > 4:
+            plans["i4"] = plans["i4"] + [cs[3], cs[3]]
+        S.append({"vec": False, "src": [(f"i{j}", 1) for j in range(len(cs))], "plans": plans, "init": {}, "shape": shape,
+                  "events": [["run", "A", True, False], ["run", "A", True, False], ["newdst"], ["run", "A", True, False]],
+                  "note": f"commands {shape}: failure position x return-file position"})
+    for shape in ("un", "nu"):
+        cs = combos(2)
+        S.append({"vec": True, "src": [("a", 3), ("b", 3), ("c", 2), ("d", 1)], "shape": shape, "init": {},
+                  "plans": {"a.0": [cs[3]], "a.2": [cs[1]], "b.1": [cs[5], cs[4]], "b.2": [cs[2]], "c.0": [cs[7]], "c.1": [cs[8]], "d.0": [cs[0]]},
+                  "events": [["run", "A", True, True], ["run", "A", True, True], ["newdst"], ["run", "A", True, True]],
+                  "note": f"vectorised commands {shape}: failure position x return-file position"})
+    S.append({"vec": False, "src": [("a", 1), ("b", 1), ("c", 1)], "shape": "un", "init": {}, "carrier": "file",
+              "plans": {"a": ["f3/w", "f3/w"], "b": ["w/f2"], "c": ["g5/s"]},
+              "events": [["run", "A", True, False], ["run", "B", True, False], ["run", "A", False, False], ["newdst"], ["run", "A", True, False]],
+              "note": "commands un: failed command + argument change [file]"})
     return S
 
 
@@ -129,16 +212,19 @@ def worker_main(jobs_fn, res_fn):
     from molli.pipeline import Job, JobInput, JobOutput, jobmap
     jobs = json.load(open(jobs_fn))
 
-    def prep(self, m, arg="A", item=None, carrier="cmd", **kw):
+    def prep(self, m, arg="A", item=None, carrier="cmd", shape="n", **kw):
         # how the job argument reaches the program: in the command text, only as the CONTENT of an input file, or only
-        # as the VALUE of an environment variable (the input differs in exactly that place between arguments)
+        # as the VALUE of an environment variable (the input differs in exactly that place between arguments).
+        # shape: one command per letter, n = named (stdout/stderr recorded under c<i>), u = unnamed (name None)
         idx = getattr(m, "_conf_id", None)
         nm = m.name if idx is None else f"{m.name}.{idx}"
+        a = {"file": "@file", "env": "@env"}.get(carrier, arg)
+        cmds = [(f"sh {item} {nm} {a} {i} {len(shape)}", f"c{i}" if ch == "n" else None) for i, ch in enumerate(shape)]
         if carrier == "file":
-            return JobInput(nm, commands=[(f"sh {item} {nm} @file", "c")], files={"arg.txt": arg.encode()}, return_files=self.return_files)
+            return JobInput(nm, commands=cmds, files={"arg.txt": arg.encode()}, return_files=self.return_files)
         if carrier == "env":
-            return JobInput(nm, commands=[(f"sh {item} {nm} @env", "c")], envars={"JOBARG": arg}, return_files=self.return_files)
-        return JobInput(nm, commands=[(f"sh {item} {nm} {arg}", "c")], return_files=self.return_files)
+            return JobInput(nm, commands=cmds, envars={"JOBARG": arg}, return_files=self.return_files)
+        return JobInput(nm, commands=cmds, return_files=self.return_files)
 
     def post_payload(self, out, m, **kw):            # needs the return file, like every shipped driver's post
         return out.files["o.txt"].decode().strip()
@@ -174,8 +260,9 @@ def worker_main(jobs_fn, res_fn):
                 os.makedirs(os.path.join(d, sub))
             item = os.path.join(d, "item.sh")
             open(item, "w").write(ITEM_SH.replace("@DIR@", d))
+            shape = sq.get("shape", "n")
             for nm, pl in sq["plans"].items():
-                open(os.path.join(d, "plan", nm), "w").write("".join(x + "\n" for x in pl))
+                open(os.path.join(d, "plan", nm), "w").write("".join("/".join(steps_of(x, shape)) + "\n" for x in pl))
             vec = sq["vec"]
             Lib = ml.ConformerLibrary if vec else ml.MoleculeLibrary
             ext = ".clib" if vec else ".mlib"
@@ -205,7 +292,7 @@ def worker_main(jobs_fn, res_fn):
             with src.reading():
                 for key, L in sq["src"]:
                     for a in ("A", "B"):
-                        pr = job.prepare(src[key], arg=a, item=item, carrier=carrier)
+                        pr = job.prepare(src[key], arg=a, item=item, carrier=carrier, shape=shape)
                         for inp in (list(pr) if vec else [pr]):
                             if h2a.get(bytes(inp.hash), a) != a:
                                 res.setdefault("hash_collisions", []).append([inp.jid, carrier])
@@ -216,6 +303,7 @@ def worker_main(jobs_fn, res_fn):
             def observe(raised):
                 with dst.reading():
                     dd = {k: [parse(x) for x in dst[k].attrib["done"]] for k in sorted(dst.keys())}
+                cn = {fn: len(open(os.path.join(d, "count", fn)).read().split()) for fn in sorted(os.listdir(os.path.join(d, "count")))}
                 cc = {}
                 od = os.path.join(cache, "output")
                 for fn in sorted(os.listdir(od)) if os.path.isdir(od) else []:
@@ -223,18 +311,23 @@ def worker_main(jobs_fn, res_fn):
                         continue
                     try:
                         o = JobOutput.load(os.path.join(od, fn))
+                        # which execution wrote it: every recorded stdout and the return file carry the attempt number;
+                        # an output with neither (only unnamed commands ran, no file) is taken to be the latest execution's
+                        att = [parse(x)[1] for x in (o.stdouts or {}).values() if str(x).startswith("run:")]
+                        if "o.txt" in (o.files or {}):
+                            att.append(parse(o.files["o.txt"].decode())[1])
+                        att = sorted(set(att)) or [cn.get(fn[:-4], 0) - 1]
                         cc[fn[:-4]] = [h2a.get(bytes(o.input_hash), "?"), int(o.exitcode), "o.txt" in (o.files or {}),
-                                       parse(o.stdouts["c"])[1]]
+                                       att[0] if len(att) == 1 else 1000 + att[-1]]
                     except Exception:
                         cc[fn[:-4]] = None
-                cn = {fn: len(open(os.path.join(d, "count", fn)).read().split()) for fn in sorted(os.listdir(os.path.join(d, "count")))}
                 return {"dst": dd, "cache": cc, "count": cn, "raised": raised}
             for ev in sq["events"]:
                 raised = None
                 if ev[0] == "run":
                     try:
                         jobmap(job, src, dst, cache_dir=cache, scratch_dir=os.path.join(d, "scr"), n_workers=4,
-                               kwargs={"arg": ev[1], "item": item, "carrier": carrier}, strict_hash=ev[2], log_level="critical")
+                               kwargs={"arg": ev[1], "item": item, "carrier": carrier, "shape": shape}, strict_hash=ev[2], log_level="critical")
                     except Exception as e:
                         raised = f"{type(e).__name__}: {e}"[:300]
                 elif ev[0] == "corrupt":
@@ -291,11 +384,12 @@ def cq_value(v):
     return "[" + "; ".join(f"({cq_s(a)}, {int(n)}%N)" for a, n in v) + "]"
 
 
-def cq_okind(x):
-    if x.startswith("F"): return f"OFail {int(x[1:])}%positive"
-    if x.startswith("G"): return f"OFailFile {int(x[1:])}%positive"
-    if x == "O": return "OOmit"
-    return "OSucceed"
+def cq_steps(tok, shape):
+    out = []
+    for st, ch in zip(steps_of(tok, shape), shape):
+        code = f"(Some {int(st[1:])}%positive)" if st[0] in "fg" else "None"
+        out.append(f"mk_cs {'true' if ch == 'n' else 'false'} {'true' if st[0] in 'wg' else 'false'} {code}")
+    return "[" + "; ".join(out) + "]"
 
 
 def cq_event(ev):
@@ -318,7 +412,8 @@ def cq_obs(o):
 
 
 def cq_jcase(sq, res):
-    plans = "[" + "; ".join(f"({cq_s(nm)}, [{'; '.join(cq_okind(x) for x in pl)}])" for nm, pl in sq["plans"].items()) + "]"
+    shape = sq.get("shape", "n")
+    plans = "[" + "; ".join(f"({cq_s(nm)}, [{'; '.join(cq_steps(x, shape) for x in pl)}])" for nm, pl in sq["plans"].items()) + "]"
     src = "[" + "; ".join(f"({cq_s(k)}, {L}%nat)" for k, L in sq["src"]) + "]"
     dst = "[" + "; ".join(f"({cq_s(k)}, {cq_value(v)})" for k, v in sq["init"].items()) + "]"
     return (f"(mk_jcase {plans} (mk_js {src} {dst} [] []) [{'; '.join(cq_event(e) for e in sq['events'])}] "
@@ -331,6 +426,13 @@ def judge(sq, res):
     vec = sq["vec"]
     src = dict((k, L) for k, L in sq["src"])
     prev = {"dst": {k: [list(x) for x in val] for k, val in sq["init"].items()}, "cache": {}, "count": {}}
+    shape = sq.get("shape", "n")
+    # what the LATEST execution of every (sub-)item did, by the script alone (not by what the runner recorded):
+    # name -> (argument, attempt, steps); None once the cached file was damaged from outside
+    latest = {}
+
+    def succeeded(t):
+        return outcome_of(t[2])[:2] == (0, True)
     for jid, carrier in res.get("hash_collisions", []):
         v.append((f"C18:hash:different-inputs-same-hash:{carrier}", f"the JobInputs prepared for {jid} with arguments A and B "
                   f"(argument carried by: {carrier}) have the same hash: a cached output of one is taken for the other's"))
@@ -338,6 +440,8 @@ def judge(sq, res):
         v.append(("C18:scratch-residue", f"scratch directory not empty after the runs: {res['residue']}"))
     for ev, o in zip(sq["events"], res["obs"]):
         if ev[0] != "run":
+            if ev[0] == "corrupt":
+                latest[ev[1]] = None
             prev = o
             continue
         _, arg, strict, _ = ev
@@ -351,6 +455,15 @@ def judge(sq, res):
             for nm in names_of(key, L, vec):
                 ex = o["count"].get(nm, 0) - prev["count"].get(nm, 0)
                 c0 = prev["cache"].get(nm, "absent")
+                t0 = latest.get(nm)
+                if not ex and key not in prev["dst"] and t0 is not None and not succeeded(t0):
+                    v.append(("C18:failed-run-reused:" + kind_of(t0[2], shape),
+                              f"{nm} not executed although a command of its latest execution (#{t0[1]}, commands {'/'.join(t0[2])}, "
+                              f"named/unnamed {shape}) failed or left no return file; its cached output reads {c0}"))
+                if ex == 1:
+                    n0 = prev["count"].get(nm, 0)
+                    pl0 = sq["plans"].get(nm, [])
+                    latest[nm] = (arg, n0, steps_of(pl0[n0] if n0 < len(pl0) else "S", shape))
                 if ex > 1 or ex < 0:
                     v.append(("C18:executed-more-than-once", f"{nm} executed {ex} times in one run"))
                 elif key in prev["dst"]:
@@ -376,10 +489,12 @@ def judge(sq, res):
                     c1 = o["cache"].get(nm)
                     n = prev["count"].get(nm, 0)
                     pl = sq["plans"].get(nm, [])
-                    want = pl[n] if n < len(pl) else "S"
-                    exp = [arg, 0 if want == "S" else (1 if want == "O" else int(want[1:])), want[0] in "SG", n]
+                    want = steps_of(pl[n] if n < len(pl) else "S", shape)
+                    code, have, _ = outcome_of(want)
+                    exp = [arg, code, have, n]
                     if c1 != exp:
-                        v.append(("C18:output-not-from-this-run", f"{nm}: cache holds {c1}, execution #{n} ({want}) should have left {exp}"))
+                        v.append(("C18:output-not-from-this-run", f"{nm}: cache holds {c1}, execution #{n} (commands {'/'.join(want)}, "
+                                  f"named/unnamed {shape}) should have left {exp}"))
         for k, val in prev["dst"].items():
             if o["dst"].get(k) != val:
                 v.append(("C18:destination-entry-changed" if k in src else "C18:destination-only-key-touched",
@@ -387,6 +502,26 @@ def judge(sq, res):
         for k in o["dst"]:
             if k not in prev["dst"] and k not in src:
                 v.append(("C18:foreign-key-in-destination", f"{k} appeared in the destination"))
+        # "exactly the processed results of the items whose commands succeeded", by the script of the latest executions
+        for key, L in src.items():
+            if key in prev["dst"]:
+                continue
+            ts = [latest.get(nm) for nm in names_of(key, L, vec)]
+            if any(t is None for t in ts):
+                continue                       # a damaged file that was not recomputed: judged above
+            bad_t = [t for t in ts if not succeeded(t)]
+            if key in o["dst"]:
+                if bad_t:
+                    t = bad_t[0]
+                    v.append(("C18:item-with-failed-command-stored:" + kind_of(t[2], shape),
+                              f"destination[{key}] = {o['dst'][key]} although execution #{t[1]} of "
+                              f"{names_of(key, L, vec)[ts.index(t)]} (commands {'/'.join(t[2])}, named/unnamed {shape}) did not succeed"))
+                elif o["dst"][key] != [[t[0], t[1]] for t in ts]:
+                    v.append(("C18:result-not-of-the-successful-executions",
+                              f"destination[{key}] = {o['dst'][key]}, the successful executions were {[[t[0], t[1]] for t in ts]}"))
+            elif not bad_t and not o["raised"]:
+                v.append(("C18:successful-commands-item-missing", f"{key}: every command of the latest executions "
+                          f"{[[t[0], t[1], '/'.join(t[2])] for t in ts]} succeeded and wrote the return file, but the destination has no entry"))
         if not o["raised"]:
             for key, L in src.items():
                 if key in prev["dst"]:
@@ -409,9 +544,11 @@ def judge(sq, res):
 # ------------------------------------------------------------------ check
 def run(ctx, rep):
     rep.rule = ("sequences of 2..4 real jobmap runs (each work item a real _molli_run subprocess) over 3..6-key libraries: per-item "
-                "outcome streams (succeed / fail / fail after writing the return file / omit the return file, by attempt), "
-                "argument and strict_hash changes, pre-populated destinations, destination-only keys, damaged cache files, "
-                "single (MoleculeLibrary) and vectorised (ConformerLibrary, 1..3 conformers) jobs; 8 directed sequences + seeded "
+                "outcome streams (succeed / fail / fail after writing the return file / omit the return file, by attempt), jobs of "
+                "1..3 commands each named or unnamed with the failing command at every position and the return file written "
+                "before / by / after it / never, argument and strict_hash changes, pre-populated destinations, destination-only keys, damaged cache files, "
+                "single (MoleculeLibrary) and vectorised (ConformerLibrary, 1..3 conformers) jobs; 21 directed sequences (7 of them "
+                "over multi-command jobs: every failure position x return-file position, single and vectorised) + seeded "
                 "random ones; non-trivial = at least one item executed; distinct by the case term")
     rep.trusted += ["harness/c18.py (item.sh script, worker, hash->argument table, Coq literal emission)",
                     "CPython ThreadPoolExecutor/subprocess, /bin/sh, msgpack, the UKV library files (C02..C04)"]
@@ -421,7 +558,9 @@ def run(ctx, rep):
                         "sequence: the inputs prepared with the two arguments must have different hashes whether the argument is "
                         "carried by the command text, only by the content of an input file, or only by the value of an envar",
                         "source keys contain no '.', vectorised items have < 10 sub-items (cache file names <key>.<i>.out)",
-                        "the post function needs the return file (raises without it), as every shipped driver's does"]
+                        "the post function needs the return file (raises without it), as every shipped driver's does",
+                        "an output that carries neither a recorded stdout nor the return file (only unnamed commands ran) is "
+                        "attributed to the item's latest execution (harness fill-in for the attempt field only)"]
     ok, out, where = vlib.build_props(ctx, rep, "C18")
     seqs = directed_sequences() + [gen_sequence(ctx.rng, k) for k in range(200 if ctx.thorough else 16)]
     results = execute(ctx, seqs, "q")
@@ -436,6 +575,13 @@ def run(ctx, rep):
         rep.case(key=t if nexec else None, sample={"note": sq["note"], "events": sq["events"], "final": r["obs"][-1]} if i % 13 == 2 else None)
         rep.count("job:" + ("vectorised" if sq["vec"] else "single"))
         rep.count("argument-carried-by:" + sq.get("carrier", "cmd"))
+        shape = sq.get("shape", "n")
+        rep.count("commands(named/unnamed):" + shape)
+        if r["obs"]:
+            for nm, cnt in r["obs"][-1]["count"].items():        # every execution that really took place, by what its script did
+                pl = sq["plans"].get(nm, [])
+                for n in range(cnt):
+                    rep.count("execution:" + kind_of(steps_of(pl[n] if n < len(pl) else "S", shape), shape))
         rep.count("runs", sum(1 for e in sq["events"] if e[0] == "run"))
         rep.count("executions", nexec)
         for sig, text in judge(sq, r):
